@@ -42,8 +42,9 @@ ASSUMPTIONS = ['Unicode Nd table and re/Decimal behaviour of the running CPython
                'week 01-53, week-of-month 1-5, hour 00-24, minute/second 00-59, amount > 0 unless stated; the accepted '
                'out-of-range strings that format to the empty string (0000, XXXX-00, XXXX-WXX-0: Python truthiness of 0) '
                'are counted as observations (evidence key accepted_out_of_range_format_empty), not reported',
-               'a year / month / season / week / week-of-month form followed by a time (2020-05T05, SUTMO) IS in the '
-               'grammar the datatype accepts (its own date+time composition assigns both halves): round-trip oracle applies']
+               'a year / month / season / week / week-of-month form followed by a time (2020-05T05, SUTMO) is accepted by the '
+               'datatype but is not a date+time combination: outside the quantifier; the strings on which the time is '
+               'dropped are counted (evidence key noncombinable_time_dropped), not reported']
 TRUSTED_EXTRA = ['harness/translate/timexregex.py (re._parser parse of the pattern texts -> Item lists)']
 
 YEARS = ['0001', '0999', '1000', '1999', '2000', '2020', '9999']
@@ -149,15 +150,16 @@ def grammar(ctx):
         for p in PODS:
             out.append(('datepartofday', d + 'T' + p, ok, None))
     # the other nine date forms + a time of day / part of day: ACCEPTED by the datatype (extract_date_time applies the 'date'
-    # patterns to the part before 'T' and the 'time' patterns to the rest and assigns the fields of both), so they are
-    # strings of "the grammar the datatype accepts" and subject to the round-trip oracle.  Lean: dt_guard_necessary /
-    # noncombinable_witnesses (timex_value() drops the time).  Signature by date form.
+    # patterns to the part before 'T' and the 'time' patterns to the rest and assigns the fields of both), but a year /
+    # month / season / week / week-of-month followed by 'T..' is not a "date+time combination": OUTSIDE the property's
+    # quantifier, like year 0000.  Correspondence only + an evidence counter (Lean: dt_guard_necessary /
+    # noncombinable_witnesses say what the code does there: timex_value() drops the time).
     y2 = dd(r.randint(1, 9999), 4)
     for form, ds in NONCOMBINABLE:
         for d in ds:
             for yy in ('2020', y2):
                 for t in ('T05', 'T05:30', 'T05:30:15', 'TMO', 'T00'):
-                    out.append(('noncombinable+time', d.replace('2020', yy) + t, True, 'noncomb:' + form))
+                    out.append(('noncombinable+time', d.replace('2020', yy) + t, False, 'noncomb:' + form))
     # out-of-range date fields + a time (year 0000, month 00, weekday 0): correspondence only
     for d in ('0000', 'XXXX-00', 'XXXX-WXX-0', '0000-05', 'XXXX-00-W02'):
         for t in ('T05', 'T05:30', 'T05:30:15', 'TMO'):
@@ -498,8 +500,6 @@ def check_convert(ctx):
 
 def classify(fam, s, tag, v):
     """stable signature of a failed round trip"""
-    if tag and tag.startswith('noncomb:'):
-        return 'noncombinable-date+time:' + tag.split(':', 1)[1]
     if fam == 'monthweek' or tag == 'monthweek' or re.match(r'^XXXX-\d\d-W\d\d$', s):
         return 'week-of-month-reformat'
     m = re.match(r'^PT?(\d*\.?\d+)[YMWDHS]$', s)
@@ -565,6 +565,12 @@ def _correspond(ctx):
                     bad = 'fields change: Timex(%r) has %s, its timex_value %r re-parses to %s' % (s, f1, v, f2)
                 elif v2 != v:
                     bad = 'format not idempotent: %r -> %r -> %r' % (s, v, v2)
+        if tag and tag.startswith('noncomb:') and not isinstance(rt, str) and rt[1] != rt[2]:
+            # accepted, the time half is dropped by timex_value() (Lean: dt_guard_necessary): observation
+            ctx.count('observation:noncombinable-time-dropped:' + tag.split(':', 1)[1])
+            obs = ctx.extra.setdefault('noncombinable_time_dropped', [])
+            if len(obs) < 40:
+                obs.append(s)
         if not ok and not isinstance(rt, str) and rt[0] == '' and rt[1] != rt[2] and fam != 'noise':
             # accepted (some field set), formats to '' : out-of-range observation (Lean: out_of_range_format_empty)
             ctx.count('observation:accepted-out-of-range-formats-empty')
